@@ -330,7 +330,7 @@ var c03AttrVals = map[string][]string{
 }
 
 func (g *c03Gen) attrValue(name string) string {
-	if vs, ok := c03AttrVals[name]; ok && (g.r.Chance(75) || name == "type" || name == "enctype" || name == "formenctype" || name == "accept") {
+	if vs, ok := c03AttrVals[name]; ok && (g.r.Chance(75) || name == "type" || name == "enctype" || name == "formenctype" || name == "accept" || name == "content" || name == "http-equiv") {
 		return g.r.Pick(vs) // media types: whitespace inside a type is not a valid value
 	}
 	if g.r.Chance(35) {
